@@ -14,10 +14,8 @@ Q = "clematis/engine/stages/t2/quality_ops.py"
 CASES = [
     ("index-upsert-skips-version", "mutant", IX, "    def add(self, ep: Dict[str, Any]) -> None:\n        self._eps.append(ep)\n        self._ver += 1\n", "    def add(self, ep: Dict[str, Any]) -> None:\n        for j, old in enumerate(self._eps):\n            if old.get(\"id\") == ep.get(\"id\"):\n                self._eps[j] = ep\n                return\n        self._eps.append(ep)\n        self._ver += 1\n", "C01.CLOCK"),
     ("index-upsert-bumps-version", "twin", IX, "    def add(self, ep: Dict[str, Any]) -> None:\n        self._eps.append(ep)\n        self._ver += 1\n", "    def add(self, ep: Dict[str, Any]) -> None:\n        for j, old in enumerate(self._eps):\n            if old.get(\"id\") == ep.get(\"id\"):\n                self._eps[j] = ep\n                self._ver += 1\n                return\n        self._eps.append(ep)\n        self._ver += 1\n", None),
-    ("gel-meta-template-deepcopied", "twin", "clematis/engine/snapshot.py", [("SCHEMA_VERSION = \"v1\"  # snapshots written going forward should include this\n", "SCHEMA_VERSION = \"v1\"  # snapshots written going forward should include this\n_EMPTY_META_TPL = {\"schema\": \"v1.1\", \"merges\": [], \"splits\": [], \"promotions\": [], \"concept_nodes_count\": 0, \"edges_count\": 0}\n"),
-      ("    _set_state_field(state, \"graph\", {\"nodes\": {}, \"edges\": {}, \"meta\": dict(empty_meta)})\n", "    import copy as _cp\n    _set_state_field(state, \"graph\", {\"nodes\": {}, \"edges\": {}, \"meta\": _cp.deepcopy(_EMPTY_META_TPL)})\n")], None, None),
-    ("gel-meta-template-shallow", "mutant", "clematis/engine/snapshot.py", [("SCHEMA_VERSION = \"v1\"  # snapshots written going forward should include this\n", "SCHEMA_VERSION = \"v1\"  # snapshots written going forward should include this\n_EMPTY_META_TPL = {\"schema\": \"v1.1\", \"merges\": [], \"splits\": [], \"promotions\": [], \"concept_nodes_count\": 0, \"edges_count\": 0}\n"),
-      ("    _set_state_field(state, \"graph\", {\"nodes\": {}, \"edges\": {}, \"meta\": dict(empty_meta)})\n", "    _set_state_field(state, \"graph\", {\"nodes\": {}, \"edges\": {}, \"meta\": dict(_EMPTY_META_TPL)})\n")], None, "C01.HIST"),
+    ("gel-meta-template-deepcopied", "twin", "clematis/engine/snapshot.py", [('SCHEMA_VERSION = "v1"  # snapshots written going forward should include this\n', 'SCHEMA_VERSION = "v1"  # snapshots written going forward should include this\n_EMPTY_META_TPL = {"schema": "v1.1", "merges": [], "splits": [], "promotions": [], "concept_nodes_count": 0, "edges_count": 0}\n'), ('            _set_state_field(state, _field, {"nodes": {}, "edges": {}, "meta": dict(empty_meta)})\n', '            import copy as _cp\n            _set_state_field(state, _field, {"nodes": {}, "edges": {}, "meta": _cp.deepcopy(_EMPTY_META_TPL)})\n')], None, None),
+    ("gel-meta-template-shallow", "mutant", "clematis/engine/snapshot.py", [('SCHEMA_VERSION = "v1"  # snapshots written going forward should include this\n', 'SCHEMA_VERSION = "v1"  # snapshots written going forward should include this\n_EMPTY_META_TPL = {"schema": "v1.1", "merges": [], "splits": [], "promotions": [], "concept_nodes_count": 0, "edges_count": 0}\n'), ('            _set_state_field(state, _field, {"nodes": {}, "edges": {}, "meta": dict(empty_meta)})\n', '            _set_state_field(state, _field, {"nodes": {}, "edges": {}, "meta": dict(_EMPTY_META_TPL)})\n')], None, "C01.HIST"),
     ("match-keywords-default-accumulator", "mutant", T1, [("def _match_keywords(text: str, labels: List[Tuple[str, str]]) -> Dict[str, float]:\n", "def _match_keywords(text: str, labels: List[Tuple[str, str]], seeds: Dict[str, float] = {}) -> Dict[str, float]:\n"), ("    t = text.casefold()\n    seeds: Dict[str, float] = {}\n", "    t = text.casefold()\n")], None, "C01.HIST"),
     ("match-keywords-default-none", "twin", T1, [("def _match_keywords(text: str, labels: List[Tuple[str, str]]) -> Dict[str, float]:\n", "def _match_keywords(text: str, labels: List[Tuple[str, str]], seeds: Optional[Dict[str, float]] = None) -> Dict[str, float]:\n"), ("    t = text.casefold()\n    seeds: Dict[str, float] = {}\n", "    t = text.casefold()\n    seeds = {} if seeds is None else seeds\n")], None, None),
     ("tick-prunes-by-key-set-rebuild", "mutant", "clematis/engine/gel.py", "    for key in to_delete:\n        edges.pop(key, None)\n", "    if to_delete:\n        edges = {key: edges[key] for key in edges.keys() - to_delete}\n        gstore[\"edges\"] = edges\n", "C01.ORDER"),
